@@ -190,6 +190,9 @@ func cmdCheck(args []string) int {
 		nSeeded = int(n)
 	}
 	childTimeout := time.Duration(meta.ChildTimeoutS) * time.Second
+	if ms := envInt("VERIF_CHILD_TIMEOUT_MS", 0); ms > 0 {
+		childTimeout = time.Duration(ms) * time.Millisecond // for testing the time-out path of the orchestrator
+	}
 	if childTimeout == 0 {
 		childTimeout = 120 * time.Second
 	}
@@ -227,6 +230,8 @@ func cmdCheck(args []string) int {
 	}
 	stop := make(chan struct{})
 	var wg sync.WaitGroup
+	var deferredMu sync.Mutex
+	var deferred []job
 	for w := 0; w < workers; w++ {
 		wg.Add(1)
 		go func() {
@@ -250,6 +255,15 @@ func cmdCheck(args []string) int {
 						}
 						o.Res.Stats["retried"] = 1
 					}
+				}
+				if o.Res == nil && o.TimedOut {
+					// no answer within the wall-clock budget while all workers were busy: whether
+					// the machine was overloaded or the case really does not end is decided by
+					// running it again alone, with four times the budget, once the batch is through
+					deferredMu.Lock()
+					deferred = append(deferred, j)
+					deferredMu.Unlock()
+					continue
 				}
 				if o.Res != nil && o.Res.Case == "" {
 					o.Res.Case = j.kase
@@ -292,7 +306,25 @@ func cmdCheck(args []string) int {
 			}
 		}
 	}()
-	go func() { wg.Wait(); close(results) }()
+	go func() {
+		wg.Wait()
+		for _, j := range deferred {
+			o := runChild(childOpts{Bin: bin, Mode: "run", Case: j.kase, Tier: tier, Emit: "tape", Timeout: 4 * childTimeout})
+			if o.Res != nil {
+				if o.Res.Case == "" {
+					o.Res.Case = j.kase
+				}
+				if o.Res.Stats == nil {
+					o.Res.Stats = map[string]int64{}
+				}
+				o.Res.Stats["rerun_alone_after_timeout"] = 1
+			} else {
+				o.Err = fmt.Sprintf("case %s: no result, also when run alone with four times the time budget (exit %d timeout=%v) %s %s", j.kase, o.ExitCode, o.TimedOut, o.Err, tail(o.Stderr, 1500))
+			}
+			results <- o
+		}
+		close(results)
+	}()
 
 	agg := newAgg(meta)
 	sigs := map[string]*sigInfo{}
